@@ -323,3 +323,52 @@ Proof.
   - exists a, b. repeat split; try lia. left. reflexivity.
   - exists b, a. repeat split; try lia. right. reflexivity.
 Qed.
+
+(* ------------------------------------------------------------------ HLLE expressions up to linear algebra *)
+Lemma hlin_sound : forall e l, hlin e = Some l -> forall ct d j p, heval e ct d j p = lin_eval l ct d j p.
+Proof.
+  induction e as [v|z|a IHa b IHb|a IHa b IHb|a IHa b IHb]; intros l H ct d j p; cbn [hlin] in H.
+  - destruct v; injection H as <-; cbn [heval]; unfold lin_eval; lia.
+  - injection H as <-. cbn [heval]. unfold lin_eval. lia.
+  - destruct (hlin a) as [[[[[a1 a2] a3] a4] a5]|]; [|discriminate].
+    destruct (hlin b) as [[[[[b1 b2] b3] b4] b5]|]; [|discriminate].
+    injection H as <-. cbn [heval]. rewrite (IHa _ eq_refl), (IHb _ eq_refl). unfold lin_eval. lia.
+  - destruct (hlin a) as [[[[[a1 a2] a3] a4] a5]|]; [|discriminate].
+    destruct (hlin b) as [[[[[b1 b2] b3] b4] b5]|]; [|discriminate].
+    injection H as <-. cbn [heval]. rewrite (IHa _ eq_refl), (IHb _ eq_refl). unfold lin_eval. lia.
+  - destruct (hlin a) as [[[[[a1 a2] a3] a4] a5]|]; [|discriminate].
+    destruct (hlin b) as [[[[[b1 b2] b3] b4] b5]|]; [|discriminate].
+    cbn [heval]. rewrite (IHa _ eq_refl), (IHb _ eq_refl). unfold lin_eval.
+    destruct ((a1 =? 0) && (a2 =? 0) && (a3 =? 0) && (a4 =? 0))%bool eqn:Ea.
+    + injection H as <-. rewrite !Bool.andb_true_iff, !Z.eqb_eq in Ea. destruct Ea as [[[-> ->] ->] ->]. lia.
+    + destruct ((b1 =? 0) && (b2 =? 0) && (b3 =? 0) && (b4 =? 0))%bool eqn:Eb; [|discriminate].
+      injection H as <-. rewrite !Bool.andb_true_iff, !Z.eqb_eq in Eb. destruct Eb as [[[-> ->] ->] ->]. lia.
+Qed.
+
+Lemma hlle_cols_ext : forall step col step' col',
+  (forall ct d j p, heval step ct d j p = heval step' ct d j p) ->
+  (forall ct d j p, heval col ct d j p = heval col' ct d j p) ->
+  forall d r j ct, hlle_cols step col d r j ct = hlle_cols step' col' d r j ct.
+Proof.
+  intros step col step' col' Hs Hc d r. induction r as [|r IH]; intros j ct; [reflexivity|].
+  cbn [hlle_cols]. rewrite Hs, IH. f_equal. apply map_ext. intros p. apply Hc.
+Qed.
+
+Theorem hlle_cols_cover_lin : forall step col,
+  hlin step = hlin hlle_step_expected -> hlin col = hlin hlle_col_expected ->
+  forall d, hlle_cols_ok step col d = true.
+Proof.
+  intros step col Hs Hc d. rewrite <- (hlle_cols_cover d). unfold hlle_cols_ok, hlle_written.
+  rewrite (hlle_cols_ext step col hlle_step_expected hlle_col_expected); [reflexivity| |].
+  - intros. rewrite (hlin_sound step _ Hs). symmetry. apply (hlin_sound hlle_step_expected). reflexivity.
+  - intros. rewrite (hlin_sound col _ Hc). symmetry. apply (hlin_sound hlle_col_expected). reflexivity.
+Qed.
+
+Lemma hlle_written_lin : forall step col,
+  hlin step = hlin hlle_step_expected -> hlin col = hlin hlle_col_expected ->
+  forall d, hlle_written step col d = hlle_written hlle_step_expected hlle_col_expected d.
+Proof.
+  intros step col Hs Hc d. unfold hlle_written. apply hlle_cols_ext.
+  - intros. rewrite (hlin_sound step _ Hs). symmetry. apply (hlin_sound hlle_step_expected). reflexivity.
+  - intros. rewrite (hlin_sound col _ Hc). symmetry. apply (hlin_sound hlle_col_expected). reflexivity.
+Qed.
